@@ -825,8 +825,11 @@ class HierarchicalMachine(Machine):
         triggers = []
         with self():
             for state in args:
-                state_name = state.name if hasattr(state, 'name') else state
-                state_path = state_name.split(self.state_cls.separator)
+                if isinstance(state, Enum):
+                    state_path = self._get_enum_path(state)
+                else:
+                    state_name = state.name if hasattr(state, 'name') else state
+                    state_path = state_name.split(self.state_cls.separator)
                 if len(state_path) > 1:  # we only need to check substates when 'state_name' refers to a substate
                     with self(state_path[0]):
                         triggers.extend(self.get_nested_triggers(state_path[1:]))
